@@ -1080,6 +1080,52 @@ func (e *Env) evalCall(x *Expr) cval {
 		}
 		e.errorf("haskey: %s is not a map", x.Args[0])
 		return cval{"false", B}
+	case "callargelem":
+		// callargelem("key", i, j): j-th element of the variadic argument i of the first call of key,
+		// as it was when the call was made
+		if len(x.Args) == 3 && x.Args[0].Op == "lit-str" && x.Args[1].Op == "lit-int" && x.Args[2].Op == "lit-int" {
+			var i, j int
+			fmt.Sscan(x.Args[1].Int, &i)
+			fmt.Sscan(x.Args[2].Int, &j)
+			if es, ok := vc.callArgElems[x.Args[0].Str][i]; ok && j < len(es) {
+				return es[j]
+			}
+			e.errorf("callargelem: no variadic argument %d (element %d) recorded for %s", i, j, x.Args[0].Str)
+			return cval{"nilval", CT{Sort: "Val"}}
+		}
+	case "b64urlEncode":
+		vc.sc.DeclFun("b64urlEncode", []string{"String"}, "String")
+		return cval{sx("b64urlEncode", argv(0).t), S}
+	case "hasMethod":
+		// hasMethod("T", "M"): static fact from go/types - the method set of T contains M
+		if len(x.Args) == 2 && x.Args[0].Op == "lit-str" && x.Args[1].Op == "lit-str" {
+			t := e.lookupType(x.Args[0].Str)
+			if t == nil {
+				e.errorf("hasMethod: unknown type %s", x.Args[0].Str)
+				return cval{"false", B}
+			}
+			obj, _, _ := types.LookupFieldOrMethod(t, true, e.pkg, x.Args[1].Str)
+			if _, ok := obj.(*types.Func); ok {
+				return cval{"true", B}
+			}
+			return cval{"false", B}
+		}
+	case "addr":
+		// addr(loc): the address of an addressable location (field, element, dereference)
+		if len(x.Args) == 1 {
+			if a, _, ok := e.addrOf(x.Args[0]); ok {
+				return cval{a, CT{Sort: "Ref"}}
+			}
+			return cval{"nilref", CT{Sort: "Ref"}}
+		}
+	case "inInt64Range":
+		// inInt64Range(x): the float x converts to an int64 without leaving its range
+		v := argv(0)
+		return cval{And(sx("<", v.t, "9223372036854775808.0"), sx(">=", v.t, "(- 9223372036854775808.0)")), B}
+	case "truncFloat":
+		// truncFloat(x): Go's float -> integer conversion (truncation toward zero)
+		v := argv(0)
+		return cval{Ite(sx(">=", v.t, "0.0"), sx("to_int", v.t), sx("-", sx("to_int", sx("-", v.t)))), I}
 	case "mapkeys", "mapvals":
 		// mapkeys(m) / mapvals(m): the whole key set / value table of map m (for "unchanged" clauses)
 		mv := argv(0)
